@@ -463,7 +463,11 @@ def v5_task(envr, item):
     shape, kind = item
 
     def body(c):
-        src, info = shapes.build_ansistring(c, shape, 'a')
+        # every insertion order of the table's keys (a dict keeps the order in which ranges were applied)
+        import itertools
+        perms = list(itertools.permutations(range(len(shape))))
+        order = perms[c.choice(len(perms))] if len(shape) > 1 else None
+        src, info = shapes.build_ansistring(c, shape, 'a', key_order=order)
         if kind == 'copy':
             run_contract(envr, c, 'AnsiString.copy', src, [], {}, CL_V5C, frame=('self',), fresh=True)
             return
